@@ -147,8 +147,15 @@ def run_async(desc, tier, seed, res):
         for _ in range(2000 if driver != "hasseb" else 0):
             cmds.append(command.from_frame(frame.ForwardFrame(24, r.getrandbits(24) | 0x010000)))
     picker = simlib.Picker(r, overrides={"tri.queue_delay": 0, "luba.queue_delay": 0, "sci.queue_delay": 0, "serial.chunking": 0})
-    sim = simlib.Sim(driver, picker)
+    def answer(width, value, idx, dt):
+        # receive side: every kind of outcome report is exercised in turn
+        if (width, value) not in qframes:
+            return None           # units answer queries only
+        return [("ok", (idx * 29 + 3) % 256), None, ("collision", 0x55), ("ok", 255), ("ok", 0)][idx % 5]
+    qframes = {(len(c.frame), c.frame.as_integer) for c in cmds if c.response is not None}
+    sim = simlib.Sim(driver, picker, answer=answer)
     marks = []
+    results = {}
     bad_len = []
 
     def writes():
@@ -164,9 +171,9 @@ def run_async(desc, tier, seed, res):
             try:
                 # the frame itself, without the library's ENABLE DEVICE TYPE prefix (that is C15's subject)
                 if driver in ("tridonic", "hasseb"):
-                    await d._send_raw(c)
+                    results[len(marks)] = await asyncio.wait_for(d._send_raw(c), 5.0)
                 else:
-                    await d.send(c)
+                    results[len(marks)] = await asyncio.wait_for(d.send(c), 5.0)
                 marks.append((c, n0, len(writes()), None))
             except Exception as e:
                 marks.append((c, n0, len(writes()), e))
@@ -218,6 +225,32 @@ def run_async(desc, tier, seed, res):
                                              [i for i in range(len(exp[0])) if got[0][i] != exp[0][i]][:1] in ([5], [0])) else "packet"
                 res.violation(f"C18/{driver}/{what}", f"{c}: driver wrote {[x.hex() for x in got]}, the gateway's format prescribes "
                               f"{[x.hex() for x in exp]}", wit)
+        # receive side: the report the gateway sent for each query decodes to the outcome it denotes
+        from dali import frame as F
+        own = [w_ for w_ in sim.bus.wire if w_["origin"] == "own"]
+        for mi, (c, a, b, exc) in enumerate(marks):
+            if exc is not None or c.response is None or mi not in results:
+                continue
+            f = c.frame
+            ent = [w_ for w_ in own if (w_["width"], w_["value"]) == (len(f), f.as_integer)]
+            if not ent:
+                continue
+            ans = ent[-1]["answer"] if len(ent) == 1 else None
+            if len(ent) != 1:
+                continue          # the same frame was sent more than once in this shard: ambiguous
+            val = results[mi]
+            res.hit("extract_codes_checked")
+            raw = getattr(val, "raw_value", "missing")
+            if ans is None:
+                ok = raw is None
+            elif ans[0] == "ok":
+                ok = isinstance(raw, F.BackwardFrame) and not raw.error and raw.as_integer == ans[1]
+            else:
+                ok = (isinstance(raw, F.BackwardFrame) and raw.error) if driver in ("tridonic", "hasseb") else raw is None
+            if type(val) is not c.response or not ok:
+                res.violation(f"C18/{driver}/report-decoding/{'none' if ans is None else ans[0]}",
+                              f"{c}: the gateway reported {ans} for this command, the driver returned {type(val).__name__} with raw {raw!r}",
+                              {"driver": driver, "command": str(c)})
         for nbits, outcome, nw in bad_len:
             res.evaluations += 1
             res.hit("unsupported_lengths_checked")
